@@ -266,7 +266,11 @@ impl Drop for SyncAllocatorInner {
 /// Returns the new boundary (the last accessible page) or an I/O error.
 fn grow(file: &File, page: PageNumber) -> std::io::Result<PageNumber> {
     let next_bump = (page.0 + GROW_STORE_BY_PAGES - 1).next_multiple_of(GROW_STORE_BY_PAGES);
+    #[cfg(nomt_verif)]
+    crate::verif_hook::begin(crate::verif_hook::Kind::SetLen, std::os::fd::AsRawFd::as_raw_fd(file), next_bump as u64 * PAGE_SIZE as u64, 0, "allocator.grow")?;
     file.set_len(next_bump as u64 * PAGE_SIZE as u64)?;
+    #[cfg(nomt_verif)]
+    crate::verif_hook::end(crate::verif_hook::Kind::SetLen, std::os::fd::AsRawFd::as_raw_fd(file), next_bump as u64 * PAGE_SIZE as u64, 0, "allocator.grow");
     Ok(PageNumber(next_bump))
 }
 
